@@ -75,7 +75,11 @@ SHARED = [
 
 def enumerations(tier):
     b = 2 if tier == "thorough" else 1
-    return [("all-schedules-<=2-deviations-at-shared-attribute-accesses-2-small-configs", PC.sweep_shared(SHARED), True),("all-schedules-<=%d-deviations-4-small-configs" % b, PC.sweep(SMALL, b, thin=3 if b == 2 else 1), b == 1)]
+    parts = [("all-schedules-<=2-deviations-at-shared-attribute-accesses-2-small-configs", PC.sweep_shared(SHARED), True),
+             ("all-schedules-<=1-deviations-4-small-configs", PC.sweep(SMALL, 1), True)]
+    if b == 2:
+        parts.append(("schedules-<=2-deviations-2-small-configs-second-deviation-at-every-2nd-step", PC.sweep([SMALL[0], SMALL[2]], 2, thin=2), False))
+    return parts
 
 
 def strategies(tier):
